@@ -273,14 +273,14 @@ def it_iterator(ctx, rep):
         if is_some:
             seen_some += 1
             good = rv and len(p.calls()) <= 3 and rt[2][0] == ("agg", "tuple", (("field", item, 0), ("field", item, 1))) or (rv and rt[2][0] == item)
-            side = [e for e in p.events if e.kind == "store"] + [e for e in p.calls() if e.ck == "std::option::Option::take"]
+            side = [e for e in p.events if e.kind == "store"] + [e for e in p.calls() if e.ck in ("std::option::Option::take", "std::mem::take")]
             rep.check(bool(good) and not side, "IT3", "yields-the-received-pair-unchanged", ctx.where(nx), "Some(pair) is exactly the received Action payload, nothing else happens", "yields %s with side effects %s" % (term_str(rt), [repr(e) for e in side]))
             got = _dec(p, lambda k: rv and k == ("discr", ("vfield", rv[0].result, "Some", 0)))
             rep.check(got == "Action", "IT3", "some-only-for-action-items", ctx.where(nx), "Some only when an Action item was received", "Some on [%s]" % p.describe())
         else:
             sub = _dec(p, lambda k: k[0] == "discr" and strip_wrap(k[1]) == ("field", ("param", 1), A.f_it_sub))
             uns = [e for e in p.calls() if e.site is not None and A.event(e.site) == "UNSUBSCRIBE"]
-            takes = [strip_wrap(e.args[0]) for e in p.calls() if e.ck == "std::option::Option::take"]
+            takes = [strip_wrap(e.args[0]) for e in p.calls() if e.ck in ("std::option::Option::take", "std::mem::take")]
             disarm = ("field", ("param", 1), A.f_it_rx) in takes
             need_unsub = sub is not None and sub == "Some"
             good = disarm and (len(uns) == (1 if need_unsub else 0)) and ("field", ("param", 1), A.f_it_sub) in takes
@@ -496,8 +496,8 @@ def ch_channeled_release(ctx, rep):
             if poisoned:
                 continue
             joins = [e for e in p.calls() if e.ck in THREAD_JOIN]
-            txt = [e for e in p.calls() if e.ck == "std::option::Option::take" and strip_wrap(e.args[0]) == ("field", ("param", 1), A.f_ch_tx)]
-            ht = [e for e in p.calls() if e.ck == "std::option::Option::take" and strip_wrap(e.args[0]) == ("field", ("param", 1), A.f_ch_handle)]
+            txt = [e for e in p.calls() if e.ck in ("std::option::Option::take", "std::mem::take") and strip_wrap(e.args[0]) == ("field", ("param", 1), A.f_ch_tx)]
+            ht = [e for e in p.calls() if e.ck in ("std::option::Option::take", "std::mem::take") and strip_wrap(e.args[0]) == ("field", ("param", 1), A.f_ch_handle)]
             dropped = [e for e in p.events if (e.kind == "drop" and e.target is not None and any(x[0] == "take" and strip_wrap(x[1]) == ("field", ("param", 1), A.f_ch_tx) for x in subterms(e.target))) or (e.kind == "call" and e.ck == "std::mem::drop" and any(x[0] == "take" and strip_wrap(x[1]) == ("field", ("param", 1), A.f_ch_tx) for a in e.args for x in subterms(a)))]
             enq = [e for e in p.calls() if e.site is not None and (A.is_send_wrapper_call(e.site) or any(e.site.ck == w_.path for w_ in []) or (ctx.prog.callee_body(e.site) is not None and any(ctx.prog.callee_body(e.site).path == w_.path for w_ in A.send_wrappers)))]
             rep.check(not enq, "R2", "release-enqueues-nothing:" + short(b.path), enq[0].site.where if enq else ctx.where(b), "the release path puts nothing into the subscriber's channel", "the release path enqueues %s into the subscriber's channel: under a drop policy this evicts a queued notification" % [term_str(e.args[1]) if len(e.args) > 1 else "?" for e in enq])
